@@ -61,7 +61,7 @@ PROPS = {
              'store commits, between the steps of every coroutine and in the middle of sweeps, also repeatedly; the dump monitors C01 (nothing disappears, completed rows final), C05 (no '
              'registration without its pending promise; a completion converted every registration), C08 (routed promise born with its task; completed promise has no live task) run on every '
              'committed batch; crashdiff: the REAL `resonate serve` binary built from /repo, 4 concurrent HTTP clients (create / register / complete with idempotency keys), SIGKILL after a '
-             'random 20-620 ms of traffic, restart on the same file, repeatedly, finally SIGTERM with the default configuration: every write acknowledged with 2xx before a kill is read back '
+             'random 20-620 ms of traffic (every second phase runs 2-3 s while another connection holds the sqlite write lock longer than the store transaction timeout, shortened to 300 ms, so batches time out half-way), restart on the same file, repeatedly, finally SIGTERM with the default configuration: every write acknowledged with 2xx before a kill is read back '
              'unchanged after every restart, the file left by every kill satisfies the all-or-nothing invariants, the server starts on it; non-trivial = acknowledged writes re-verified (counted)',
         assumptions=['a committed sqlite transaction is durable and atomic at the process level (sqlite, WAL/journal); power loss / fsync are outside the model and the sandbox',
                      'in-flight requests lose only their responses'],
